@@ -60,6 +60,14 @@ func (m *vpKeyMutex) LockKey(id string) {
 	if m.w != nil {
 		me = m.w.thread
 	}
+	for other, owner := range m.held {
+		// the real pools are hashed key mutexes (500000 buckets): two different keys of ONE pool may share a bucket, so
+		// an operation that holds one key of a pool and takes another key of the same pool can block on itself; the
+		// code avoids that by taking nested locks from different pools (pod lock pool, deployment / pool lock pool)
+		if owner == me && other != id {
+			verifAssert("C18/two-keys-of-one-hashed-pool?", false, "an operation takes a second key ("+id+") of a hashed lock pool while it holds another one ("+other+"): a bucket collision deadlocks it")
+		}
+	}
 	for {
 		owner, held := m.held[id]
 		if !held {
@@ -135,6 +143,7 @@ type vpWorld struct {
 	dpLocks     *vpKeyMutex
 	// interference (DESIGN.md §3.7 2a): another whole operation runs atomically inside one window of the outer
 	// operation; windows are the points right before and right after every API-server call
+	faultAll   bool // every counted call from the faultAt-th on fails (an outage), not just that one
 	interferer func()
 	windowAt   int // symbolic: the index of the window in which the interferer runs (0 = never)
 	winCount   int
@@ -206,7 +215,7 @@ func (w *vpWorld) tick(kind, name string) error {
 		w.mu.Lock() // (keeps the deferred Unlock balanced)
 		panic(vpCrashed{})
 	}
-	if w.faultAt == w.calls {
+	if w.faultAt == w.calls || (w.faultAll && w.faultAt > 0 && w.calls >= w.faultAt) {
 		w.faulted = true
 		return fmt.Errorf("injected fault: %s %s", kind, name)
 	}
@@ -922,6 +931,11 @@ type vpIPAMWrap struct {
 	w *vpWorld
 }
 
+func (i *vpIPAMWrap) ConfigurePool(pools []*floatingip.FloatingIPPool) error {
+	i.w.windowPoint()
+	defer i.w.windowPoint()
+	return i.IPAM.ConfigurePool(pools)
+}
 func (i *vpIPAMWrap) AllocateSpecificIP(key string, ip net.IP, attr floatingip.Attr) error {
 	i.w.windowPoint()
 	defer i.w.windowPoint()
